@@ -158,6 +158,7 @@ def run_explainer(case):
         random.seed(cfg['seeds'][0])
         np.random.seed(cfg['seeds'][1])
         ex = h.pfi() if case['cls'] == 'pfi' else h.sage()
+        h.prefill(ex)
         seq = []
         for row in cfg['stream']:
             x, y = h.row(row)
@@ -247,4 +248,4 @@ def run(ctx):
 
     ctx.search('tracker', tracker_cases(1000000 if ctx.thorough() else 20000), rt, ctx.n(260, 2400))
     ctx.extra['worst_ratio_to_unit_bound'] = {k: round(v, 4) for k, v in worst.items()}
-    ctx.search('explainer', explainer_cases(), run_explainer, ctx.n(300, 16000))
+    ctx.search('explainer', explainer_cases(), run_explainer, ctx.n(700, 16000))
